@@ -15,6 +15,19 @@ Theorem C14_parse_render : forall ind d v rest, wf v -> follow_ok rest ->
 Proof. exact parse_render_g. Qed.
 Print Assumptions C14_parse_render.
 
+(* faithful, as injectivity: the stored bytes determine the JSON image — two well-formed values rendered to the same bytes
+   (compact or indented, at any depths) have the same image, and valid values (their own image) are then equal *)
+Theorem C14_render_injective : forall ind1 d1 ind2 d2 v1 v2, wf v1 -> wf v2 ->
+  render_g ind1 d1 v1 = render_g ind2 d2 v2 -> jimage v1 = jimage v2.
+Proof. exact render_g_injective. Qed.
+Print Assumptions C14_render_injective.
+
+Theorem C14_render_injective_valid : forall v1 v2, wf v1 -> wf v2 -> jvalid v1 -> jvalid v2 -> render v1 = render v2 -> v1 = v2.
+Proof.
+  intros v1 v2 W1 W2 J1 J2 E. rewrite <- (jimage_valid v1 J1), <- (jimage_valid v2 J2). exact (render_injective v1 v2 W1 W2 E).
+Qed.
+Print Assumptions C14_render_injective_valid.
+
 (* valid UTF-8 (ASCII in particular) passes through unchanged: such strings, and values built from them, are their own image *)
 Theorem C14_sanitize_valid : forall s, utf8_valid s = true -> sanitize s = s.
 Proof. exact sanitize_valid. Qed.
